@@ -122,6 +122,7 @@ impl MetricPublisher for DeviceHandle {
 pub(crate) struct DeviceState {
     birthed: AtomicBool,
     birth_epoch: AtomicU64,
+    removed: AtomicBool,
     id: DeviceId,
     pub(crate) name: Arc<String>,
     ddata_topic: DeviceTopic,
@@ -176,8 +177,8 @@ impl Device {
         }
     }
 
-    async fn birth(&self, birth_type: &BirthType) {
-        if !self.enabled {
+    async fn birth(&self, birth_type: &BirthType, node_birth_epoch: Option<u64>) {
+        if !self.enabled || self.state.removed.load(Ordering::SeqCst) {
             return;
         }
 
@@ -185,7 +186,8 @@ impl Device {
             return;
         }
 
-        let (seq, birth_epoch) = match self.eon_state.get_next_seq_and_epoch(None) {
+        /* A birth requested by a node birth is only valid while that node birth is the current one */
+        let (seq, birth_epoch) = match self.eon_state.get_next_seq_and_epoch(node_birth_epoch) {
             Ok(res) => res,
             Err(_) => return,
         };
@@ -282,7 +284,7 @@ impl Device {
 
     async fn enable(&mut self) {
         self.enabled = true;
-        self.birth(&BirthType::Birth).await
+        self.birth(&BirthType::Birth, None).await
     }
 
     async fn disable(&mut self) {
@@ -296,9 +298,9 @@ impl Device {
                 biased;
                 maybe_state_update = self.node_state_rx.recv() => match maybe_state_update {
                     Some(state_update) => match state_update {
-                            NodeStateMessage::Birth(birth_type, new_template_registry) => {
+                            NodeStateMessage::Birth(birth_type, new_template_registry, node_birth_epoch) => {
                                 self.template_registry = new_template_registry;
-                                self.birth(&birth_type).await
+                                self.birth(&birth_type, Some(node_birth_epoch)).await
                             },
                             NodeStateMessage::Death => self.death(false).await,
                             NodeStateMessage::Removed => {
@@ -312,7 +314,7 @@ impl Device {
                     match request {
                         DeviceHandleRequest::Enable => self.enable().await,
                         DeviceHandleRequest::Disable => self.disable().await,
-                        DeviceHandleRequest::Rebirth => self.birth(&BirthType::Rebirth).await,
+                        DeviceHandleRequest::Rebirth => self.birth(&BirthType::Rebirth, None).await,
                     }
                 },
                 maybe_message = self.device_message_rx.recv() => match maybe_message {
@@ -327,7 +329,7 @@ impl Device {
 
 #[derive(Debug)]
 enum NodeStateMessage {
-    Birth(BirthType, Arc<TemplateRegistry>),
+    Birth(BirthType, Arc<TemplateRegistry>, u64),
     Death,
     Removed,
 }
@@ -342,6 +344,7 @@ pub enum DeviceRegistrationError {
 
 struct DeviceMapEntry {
     id: DeviceId,
+    state: Arc<DeviceState>,
     device_message_tx: mpsc::UnboundedSender<Message>,
     node_state_tx: mpsc::UnboundedSender<NodeStateMessage>,
 }
@@ -399,14 +402,7 @@ impl DeviceMap {
         let (handle_request_tx, handle_request_rx) = mpsc::unbounded_channel();
         let (node_state_tx, node_state_rx) = mpsc::unbounded_channel();
 
-        let device_map_entry = DeviceMapEntry {
-            id,
-            device_message_tx,
-            node_state_tx,
-        };
-
-        let device = Device {
-            state: Arc::new(DeviceState {
+        let state = Arc::new(DeviceState {
                 id,
                 name: name.clone(),
                 ddata_topic: DeviceTopic::new(
@@ -417,7 +413,18 @@ impl DeviceMap {
                 ),
                 birthed: AtomicBool::new(false),
                 birth_epoch: AtomicU64::new(0),
-            }),
+                removed: AtomicBool::new(false),
+        });
+
+        let device_map_entry = DeviceMapEntry {
+            id,
+            state: state.clone(),
+            device_message_tx,
+            node_state_tx,
+        };
+
+        let device = Device {
+            state,
             template_registry: self.template_registry.clone(),
             enabled: false,
             eon_state,
@@ -447,6 +454,7 @@ impl DeviceMap {
             self.remove_device_id(entry.id);
             entry
         };
+        entry.state.removed.store(true, Ordering::SeqCst);
         _ = entry.node_state_tx.send(NodeStateMessage::Removed);
     }
 
@@ -454,6 +462,7 @@ impl DeviceMap {
         &mut self,
         birth_type: BirthType,
         new_template_registry: &Arc<TemplateRegistry>,
+        node_birth_epoch: u64,
     ) {
         self.template_registry = new_template_registry.clone();
         info!("Birthing Devices. Type = {birth_type:?}");
@@ -461,6 +470,7 @@ impl DeviceMap {
             _ = entry.node_state_tx.send(NodeStateMessage::Birth(
                 birth_type,
                 new_template_registry.clone(),
+                node_birth_epoch,
             ));
         }
     }
